@@ -5,6 +5,7 @@ mod refeval;
 mod c01;
 mod c04;
 mod c10;
+mod c15;
 mod c20;
 
 fn main() {
@@ -20,6 +21,7 @@ fn main() {
     let rc = match cmd {
         "c01" => c01::run(seed, count, &outdir, &budgets).unwrap(),
         "c10" => c10::run(seed, count, &outdir).unwrap(),
+        "c15" => c15::run(seed, count, &outdir).unwrap(),
         "c20" => c20::run(seed, count, &outdir).unwrap(),
         "c04" => c04::run(seed, count, &outdir, args.get(5).map(|s| s == "jit").unwrap_or(false)).unwrap(),
         _ => { eprintln!("usage: fv <cmd> <seed> <count> <outdir> [budgets]"); 2 }
